@@ -112,32 +112,44 @@ def findIdx (x : String) : List String → Option Nat
   | [] => none
   | y :: ys => if x = y then some 0 else (findIdx x ys).map (· + 1)
 
-/-- `_consume_balanced_tokens(*init_tokens)`; `stack` has its top first -/
-def consumeBalancedTokens (fuel : Nat) (init : List CTok) : M (List CTok) := do
-  let stack0 : List String := (init.map (fun t => (Gen.balancedTokenMap.lookup t.type).getD "?")).reverse
-  loopN fuel (init, stack0) (fun (consumed, stack) => do
-    let tok ← token
-    let consumed := consumed ++ [tok]
-    if isBalancedEnd tok.type then
-      match stack with
-      | [] => pyRaise "IndexError" "pop from an empty deque"
-      | expected :: stack =>
-        if tok.type != expected then
-          -- hack: assume `<`/`>` are doing math
-          if tok.type != ">" && expected != ">" then raiseParseError (some tok) expected
-          else if tok.type = ">" then pure (.inl (consumed, expected :: stack))
-          else
-            match findIdx tok.type stack with
-            | some i =>
-              let stack := stack.drop (i + 1)
-              if stack.isEmpty then pure (.inr consumed) else pure (.inl (consumed, stack))
-            | none => pure (.inl (consumed, expected :: stack))
+/-- the error of `raise self._parse_error(tok, expected)` -/
+def unexpectedErr (tok : CTok) (expected : String) : Err :=
+  .parse ("unexpected '" ++ tok.value ++ "'" ++ (if expected.isEmpty then "" else ", expected '" ++ expected ++ "'")) (some tok)
+
+def liftE {α : Type} : Except Err α → M α
+  | .ok a => Prog.pure a
+  | .error e => Prog.fail e
+
+/-- one iteration of `_consume_balanced_tokens` after `tok` was read; `stack` has its top first -/
+def balStep (st : List CTok × List String) (tok : CTok) : Except Err ((List CTok × List String) ⊕ List CTok) :=
+  let consumed := st.1 ++ [tok]
+  if isBalancedEnd tok.type then
+    match st.2 with
+    | [] => .error (.py "IndexError" "pop from an empty deque")
+    | expected :: stack =>
+      if tok.type != expected then
+        -- hack: assume `<`/`>` are doing math
+        if tok.type != ">" && expected != ">" then .error (unexpectedErr tok expected)
+        else if tok.type = ">" then .ok (.inl (consumed, expected :: stack))
         else
-          if stack.isEmpty then pure (.inr consumed) else pure (.inl (consumed, stack))
-    else
-      match Gen.balancedTokenMap.lookup tok.type with
-      | some nextEnd => pure (.inl (consumed, nextEnd :: stack))
-      | none => pure (.inl (consumed, stack)))
+          match findIdx tok.type stack with
+          | some i =>
+            let stack := stack.drop (i + 1)
+            if stack.isEmpty then .ok (.inr consumed) else .ok (.inl (consumed, stack))
+          | none => .ok (.inl (consumed, expected :: stack))
+      else
+        if stack.isEmpty then .ok (.inr consumed) else .ok (.inl (consumed, stack))
+  else
+    match Gen.balancedTokenMap.lookup tok.type with
+    | some nextEnd => .ok (.inl (consumed, nextEnd :: st.2))
+    | none => .ok (.inl (consumed, st.2))
+
+/-- `_consume_balanced_tokens(*init_tokens)` -/
+def consumeBalancedTokens (fuel : Nat) (init : List CTok) : M (List CTok) :=
+  let stack0 : List String := (init.map (fun t => (Gen.balancedTokenMap.lookup t.type).getD "?")).reverse
+  loopN fuel (init, stack0) (fun st => do
+    let tok ← token
+    liftE (balStep st tok))
 
 /-- `_discard_contents(start_type, end_type)` -/
 def discardContents (fuel : Nat) (startType endType : String) : M Unit :=
